@@ -8,7 +8,7 @@ materialised; project / prune.
 """
 import itertools
 
-from fibertree import Fiber, Payload, Tensor
+from fibertree import CoordPayload, Fiber, Payload, Tensor
 
 from fvmon import gen
 from fvmon.observe import content, snap, unbox, RC, idset
@@ -20,21 +20,33 @@ SPEC = {
              "range / default; optional negative coordinate offset) x a list of traversals (all 13 modes; for the "
              "range modes every (start, end[, step]) over a window extending past both ends; every valid start_pos; "
              "affine increasing/decreasing projections with intervals; prune predicates; lazy re-iteration and "
-             "fromLazy). Non-trivial = the fiber stores at least one element and at least one traversal yields "
+             "fromLazy; shape / Ref / dense co-iteration traversals that are obtained and abandoned after k >= 0 "
+             "elements; lazy fibers made with Fiber.fromIterator from caller-supplied producer classes of five "
+             "state-keeping styles, put through a random sequence of complete / abandoned traversals, len, "
+             "fromLazy, project and prune). Non-trivial = the fiber stores at least one element and at least one traversal yields "
              "at least one element; distinct = distinct case."),
     "shards": {"quick": 16, "thorough": 16},
     "min_counts": {"quick": {"evaluations": 300, "traversals": 4000, "yields_checked": 10000, "ref_traversals": 300,
-                             "startpos_traversals": 300, "project_traversals": 200, "lazy_traversals": 100}},
+                             "startpos_traversals": 300, "project_traversals": 200, "lazy_traversals": 100,
+                             "partial_traversals": 500, "producer_traversals": 1000, "producer_retraversals": 500}},
     "assumptions": [
         "start_pos is generated only when valid: no element the traversal must yield lies before it, and (as the API asserts) 0 <= start_pos < len(coords)",
         "the domain of shape/active iteration is what getShape()/getActive() report (their correctness is C14's)",
         "decreasing projections are generated for fibers with leaf default 0 (the reversed view is a fresh lazy fiber)",
         "prune predicates return True/False only",
+        "an abandoned traversal has visited exactly the coordinates it has delivered (k next() calls = k visits; k = 0 means the traversal object was only obtained)",
+        "a producer class given to Fiber.fromIterator delivers, per instance, its elements once in ascending order as CoordPayloads; it may keep that stream's state on the instance (set up in __init__); the lazy fiber declares a shape or an active range (the library asserts it cannot estimate one)",
     ],
 }
 
 MODES_PLAIN = ["iter", "iterOccupancy", "iterActive", "iterShape", "iterActiveShape"]
 MODES_REF = ["iterShapeRef", "iterActiveShapeRef"]
+MODES_SHAPE = ["iterShape", "iterActiveShape", "iterRangeShape", "iterShapeRef", "iterActiveShapeRef", "iterRangeShapeRef"]
+# how a producer class handed to Fiber.fromIterator organises its state; every one of them gives a fresh,
+# complete, ascending stream per *instance*, which is all that fromIterator asks of it
+PRODUCER_STYLES = ["genfunc", "listiter", "stream", "cursor", "self-iterator"]
+PRUNE_FNS = {"even-pos": lambda i, c, q: i % 2 == 0, "odd-coord": lambda i, c, q: c % 2 == 1,
+             "first2": lambda i, c, q: i < 2, "all": lambda i, c, q: True, "none": lambda i, c, q: False}
 
 
 # ------------------------------------------------------------------------------------------
@@ -116,11 +128,49 @@ def _travs_for(rng, cfg, full):
             travs.append(["project", {"k": 1, "d": 0, "interval": [a, a + rng.randint(0, 4)], "p": p}])
     travs.append(["prune", {"pred": rng.choice(["even-pos", "odd-coord", "first2", "all", "none"])}])
     travs.append(["lazy", {"via": rng.choice(["and-self", "project", "prune"])}])
+    # traversals that are obtained but abandoned after `take` elements (0 = never started); the number is
+    # clipped to the length of the traversal's domain at run time
+    for m in (MODES_SHAPE if full else rng.sample(MODES_SHAPE, 2)):
+        for k in ((0, 1, rng.randint(2, hi - lo)) if full else (rng.choice([0, 0, 1, 2, 3, 5]),)):
+            a = {"take": k}
+            if "Range" in m:
+                s, e = rng.choice(rngs)
+                a.update({"s": s, "e": e, "step": rng.choice([1, 1, 2])})
+            travs.append([m, a])
+    # lazy fibers made from a caller-supplied producer class (Fiber.fromIterator), traversed several times
+    for style in (PRODUCER_STYLES if full else rng.sample(PRODUCER_STYLES, 2)):
+        travs.append(["producer", {"style": style, "ops": [_producer_op(rng, lo, hi) for _ in range(rng.randint(2, 5))]}])
     travs.append(["coiter", {"mode": rng.choice(["coiterShape", "coiterShapeRef", "coiterActiveShape", "coiterActiveShapeRef",
                                                  "coiterRangeShape", "coiterRangeShapeRef"]),
                              "other": gen.rand_leaf_spec(rng, max(hi, 1), 0.5, 0.2, cfg["default"]),
                              "s": rng.randint(lo, hi), "e": rng.randint(lo, hi), "step": rng.choice([1, 2])}])
+    travs.append(["coiter", {"mode": rng.choice(["coiterShapeRef", "coiterActiveShapeRef", "coiterRangeShapeRef", "coiterRangeShape"]),
+                             "other": gen.rand_leaf_spec(rng, max(hi, 1), 0.5, 0.2, cfg["default"]),
+                             "s": rng.randint(lo, hi), "e": rng.randint(lo, hi), "step": rng.choice([1, 2]),
+                             "take": rng.choice([0, 1, 2, 3])}])
     return travs
+
+
+def _producer_op(rng, lo, hi):
+    r = rng.random()
+    if r < 0.2:
+        return ["iter"]
+    if r < 0.3:
+        return ["iterOccupancy"]
+    if r < 0.45:
+        s = rng.randint(lo, hi)
+        return ["iterRange", s, rng.randint(s, hi + 1)]
+    if r < 0.55:
+        return ["iterActive"]
+    if r < 0.65:
+        return ["len"]
+    if r < 0.75:
+        return ["fromLazy"]
+    if r < 0.85:
+        return ["project", rng.randint(-3, 4)]
+    if r < 0.92:
+        return ["prune", rng.choice(["even-pos", "odd-coord", "first2"])]
+    return ["partial", rng.randint(0, 3)]
 
 
 def generate(rng, tier, shard, nshards, mon):
@@ -189,13 +239,21 @@ class _Ctx:
         self.mon, self.cfg, self.d = mon, cfg, cfg["default"]
 
 
-def _take(mon, it, cap, what):
+def _take(mon, it, cap, what, k=None):
+    """Consume `it` completely (k None) or abandon it after exactly k elements (k == 0: never start it)."""
     out = []
+    if k == 0:
+        return out
+    it = iter(it)
     for i, el in enumerate(it):
         if i >= cap:
             mon.violation(f"{what}:runaway", f"{what} yielded more than {cap} elements")
             break
         out.append((el.coord, el.payload))
+        if k is not None and len(out) >= k:
+            break
+    if k is not None and hasattr(it, "close"):
+        it.close()
     return out
 
 
@@ -242,6 +300,150 @@ def run_case(case, mon):
     if cfg["spec"] and any_yield:
         mon.nontrivial()
     mon.state((str(cfg["spec"]), cfg["fmt"], cfg["own"]))
+
+
+def _producer_class(style, elems):
+    """A class in the sense of Fiber.fromIterator: each *instance* delivers `elems` once, in order."""
+    def cp(i):
+        return CoordPayload(elems[i][0], elems[i][1])
+
+    if style == "genfunc":              # stateless: __iter__ is a generator function
+        class P:
+            def __iter__(self):
+                for i in range(len(elems)):
+                    yield cp(i)
+    elif style == "listiter":           # stateless: a new list iterator per __iter__
+        class P:
+            def __iter__(self):
+                return iter([cp(i) for i in range(len(elems))])
+    elif style == "stream":             # the stream is set up when the instance is created
+        class P:
+            def __init__(self):
+                self.stream = (cp(i) for i in range(len(elems)))
+
+            def __iter__(self):
+                return self.stream
+    elif style == "cursor":             # a cursor kept on the instance
+        class P:
+            def __init__(self):
+                self.pos = 0
+
+            def __iter__(self):
+                while self.pos < len(elems):
+                    self.pos += 1
+                    yield cp(self.pos - 1)
+    elif style == "self-iterator":      # the instance is its own iterator
+        class P:
+            def __init__(self):
+                self.pos = 0
+
+            def __iter__(self):
+                return self
+
+            def __next__(self):
+                if self.pos >= len(elems):
+                    raise StopIteration
+                self.pos += 1
+                return cp(self.pos - 1)
+    else:
+        raise ValueError(style)
+    return P
+
+
+def _same_payload(p, q, d):
+    if p is q:
+        return True
+    if isinstance(q, Fiber):
+        return isinstance(p, Fiber) and content(p, d) == content(q, d)
+    return not isinstance(p, Fiber) and unbox(p) == unbox(q)
+
+
+def _run_producer(ctx, f, watched, before, args):
+    """A lazy fiber over a caller-supplied producer class: every traversal (whichever came before it, completed
+    or abandoned) yields the non-empty produced elements of the slice it names; len / fromLazy / project / prune
+    agree with the same raw list."""
+    mon, cfg, d = ctx.mon, ctx.cfg, ctx.d
+    elems = list(zip(f.coords, f.payloads))             # the produced stream: ascending, with explicit empties
+    nonempty = [(c, q) for c, q in elems if not _empty(q, d)]
+    kw = {"default": d} if not cfg["interior"] else {}
+    if cfg["shape"] is not None and not (elems and elems[0][0] < 0):
+        kw["shape"] = cfg["shape"]
+    elif cfg["active"] is not None:
+        kw["active_range"] = tuple(cfg["active"])
+    else:
+        kw["active_range"] = ((elems[0][0] - 1, elems[-1][0] + 2) if elems else (0, 2))
+    lazy = Fiber.fromIterator(_producer_class(args["style"], elems), **kw)
+    cap = len(elems) + 5
+    ntrav = [0]
+    total = 0
+
+    def seq(op, it, exp, k=None):
+        nonlocal total
+        what = f"fromIterator:{op}"
+        got = _take(mon, it, cap, what, k)
+        mon.count("traversals")
+        mon.count("producer_traversals")
+        mon.count("yields_checked", len(got))
+        clause = "coords" if ntrav[0] == 0 else "reiteration"
+        if ntrav[0] > 0:
+            mon.count("producer_retraversals")
+        ntrav[0] += 1
+        total += len(got)
+        gc, ec = [c for c, _ in got], [c for c, _ in exp]
+        if mon.check(gc == ec, f"{what}:{clause}",
+                     f"{what} (producer style {args['style']}, traversal #{ntrav[0]} of the lazy fiber, ops {args['ops']}) "
+                     f"yielded {gc}, the produced stream gives {ec}; produced {[(c, unbox(q) if not isinstance(q, Fiber) else 'fiber') for c, q in elems]}"):
+            mon.check(all(_same_payload(p, q, d) for (_, p), (_, q) in zip(got, exp)), f"{what}:payloads",
+                      f"{what}: delivered payloads differ from the produced ones")
+
+    for op in args["ops"]:
+        name = op[0]
+        if name in ("iter", "iterOccupancy"):
+            seq(name, lazy.__iter__() if name == "iter" else lazy.iterOccupancy(), nonempty)
+        elif name == "partial":
+            k = min(op[1], len(nonempty))
+            seq("iter+partial", lazy.__iter__(), nonempty[:k], k)
+        elif name == "iterRange":
+            s, e = op[1], op[2]
+            seq(name, lazy.iterRange(s, e), [(c, q) for c, q in nonempty if s <= c < e])
+        elif name == "iterActive":
+            s, e = lazy.getActive()
+            seq(name, lazy.iterActive(), [(c, q) for c, q in nonempty if s <= c < e])
+        elif name == "len":
+            n = len(lazy)
+            clause = "len" if ntrav[0] == 0 else "len-after-traversal"
+            ntrav[0] += 1
+            mon.count("producer_traversals")
+            mon.check(n == len(nonempty), f"fromIterator:{clause}",
+                      f"len(lazy)={n} (style {args['style']}, ops {args['ops']}), the produced stream has {len(nonempty)} non-empty elements")
+        elif name == "fromLazy":
+            if cfg["interior"]:
+                continue
+            eager = Fiber.fromLazy(lazy)
+            clause = "fromLazy" if ntrav[0] == 0 else "fromLazy-after-traversal"
+            ntrav[0] += 1
+            mon.count("producer_traversals")
+            ok = (not eager.isLazy() and list(eager.coords) == [c for c, _ in nonempty]
+                  and [unbox(p) for p in eager.payloads] == [unbox(q) for _, q in nonempty])
+            mon.check(ok, f"fromIterator:{clause}",
+                      f"fromLazy (style {args['style']}, ops {args['ops']}) gave {list(zip(eager.coords, eager.payloads))}, "
+                      f"the produced non-empty elements are {[(c, unbox(q)) for c, q in nonempty]}")
+        elif name == "project":
+            dd = op[1]
+            pr = lazy.project(trans_fn=lambda c, dd=dd: c + dd)
+            exp = [(c + dd, q) for c, q in nonempty]
+            seq("project", pr, exp)
+            seq("project", pr, exp)
+        elif name == "prune":
+            fn = PRUNE_FNS[op[1]]
+            pn = lazy.prune(trans_fn=fn)
+            exp = [(c, q) for i, (c, q) in enumerate(nonempty) if fn(i, c, q)]
+            seq("prune", pn, exp)
+            seq("prune", pn, exp)
+        else:
+            raise ValueError(name)
+    mon.check(snap(watched) == before, "fromIterator:modified-source", "traversing the lazy fiber changed the produced payloads")
+    return total
 
 
 def _valid_startpos(f, d, p, s, e):
@@ -311,10 +513,17 @@ def _run_trav(ctx, mode, args):
             dom = list(range(lo, hi))
             it = getattr(f, mode)()
         cap = len(dom) + 5
+        k = args.get("take")
+        if k is not None:
+            # an abandoned traversal has visited (and delivers) exactly the first k coordinates of its domain
+            k = min(k, len(dom))
+            dom = dom[:k]
+            what += "+partial"
+            mon.count("partial_traversals")
         if mode.endswith("Ref"):
             mutating = True
             mon.count("ref_traversals")
-            got = _take(mon, it, cap, what)
+            got = _take(mon, it, cap, what, k)
             exp = [(c, stored.get(c)) for c in dom]
             want_coords = sorted(set(cs) | set(dom))
             mon.check(list(f.coords) == want_coords, f"{what}:inserted-coords",
@@ -342,7 +551,7 @@ def _run_trav(ctx, mode, args):
                 mon.check(not pr, f"{what}:rank-lists", f"{what}: tensor rank lists inconsistent afterwards: {pr}")
             return len(got)
         exp = [(c, stored.get(c)) for c in dom]
-        got = _take(mon, it, cap, what)
+        got = _take(mon, it, cap, what, k)
     elif mode == "project":
         k, dd, iv, p = args["k"], args["d"], args.get("interval"), args.get("p")
         if cfg["fmt"] == "U" or (k < 0 and (d != 0 or interior)):
@@ -375,9 +584,7 @@ def _run_trav(ctx, mode, args):
                   f"{what}:reiteration", f"{what}: second traversal gave {[c for c, _ in got2]} after {[c for c, _ in got]}")
     elif mode == "prune":
         pred = args["pred"]
-        fns = {"even-pos": lambda i, c, q: i % 2 == 0, "odd-coord": lambda i, c, q: c % 2 == 1,
-               "first2": lambda i, c, q: i < 2, "all": lambda i, c, q: True, "none": lambda i, c, q: False}
-        fn = fns[pred]
+        fn = PRUNE_FNS[pred]
         if cfg["fmt"] == "U":
             lo, hi = f.getActive()
             src = [(c, stored.get(c)) for c in range(lo, hi)]
@@ -441,7 +648,13 @@ def _run_trav(ctx, mode, args):
             dom = list(range(lo, hi))
             res = getattr(Fiber, m)([f, g])
         what = m
-        got = _take(mon, res, len(dom) + 5, what)
+        k = args.get("take")
+        if k is not None:
+            k = min(k, len(dom))
+            dom = dom[:k]
+            what += "+partial"
+            mon.count("partial_traversals")
+        got = _take(mon, res, len(dom) + 5, what, k)
         mon.count("traversals")
         mon.count("yields_checked", len(got))
         ok = mon.check([c for c, _ in got] == dom, f"{what}:coords", f"{what} yielded {[c for c, _ in got]} expected {dom}")
@@ -465,6 +678,8 @@ def _run_trav(ctx, mode, args):
         else:
             mon.check(snap(watched) == before, f"{what}:modified-operand", f"{what} changed its first operand")
         return len(got)
+    elif mode == "producer":
+        return _run_producer(ctx, f, watched, before, args)
     else:
         raise ValueError(mode)
 
